@@ -52,6 +52,7 @@ def run(p: Project, tier: str) -> Result:
             if name.startswith('update_final_') and name.endswith('_avg_content'):
                 par = [a.arg for a in fi.node.args.args if a.arg != 'self']
                 check_updater(p, fi, f'self.{attr}', st.holders, r, par[0] if par else '?')
+    check_edge_publication(p, r)
     # R4
     sub = Result('C18')
     nws = nodewalk.walks(p)
@@ -195,6 +196,15 @@ def check_updater(p, fi, recv, holders, r, now_expr):
     env = {}
     assigned = set()
     conditional = None
+    published = {'seen': False, 'ok': False}
+
+    def quotient_ok(v):
+        """the published average is <current integral> / <now> (possibly inside `… if now > 0 else 0.0`)"""
+        for x in ast.walk(v):
+            if isinstance(x, ast.BinOp) and isinstance(x.op, ast.Div):
+                if _peval(x.left, env, state, recv, now_expr) == state['_weighted_sum'] and _peval(x.right, env, state, recv, now_expr) == _atom('NOW'):
+                    return True
+        return False
 
     def walk(stmts, top):
         nonlocal conditional
@@ -206,6 +216,10 @@ def check_updater(p, fi, recv, holders, r, now_expr):
                 if n.value is None:
                     continue
                 t = ast.unparse(tg)
+                if t == f'{recv}.time_averaged_num_of_items_in_store' and isinstance(n, ast.Assign):
+                    published['seen'] = True
+                    if not (isinstance(n.value, ast.Constant) and n.value.value in (0, 0.0)):      # (`… = 0.0` on the `now == 0` branch is neutral)
+                        published['ok'] = quotient_ok(n.value) and '_weighted_sum' in assigned
                 val = _peval(n.value, env, state, recv, now_expr)
                 if isinstance(n, ast.AugAssign):
                     cur = _peval(tg, env, state, recv, now_expr)
@@ -259,10 +273,54 @@ def check_updater(p, fi, recv, holders, r, now_expr):
             why = f'the last-change stamp becomes {_pshow(state["_last_level_change_time"])}, expected now (`{now_expr}`)'
         elif conditional in ('_weighted_sum', '_last_level_change_time'):
             why = f'{conditional} is updated only conditionally'
+    if why is None and not (published['seen'] and published['ok']):
+        why = ('the published average (time_averaged_num_of_items_in_store) is not refreshed as <integral after this update> / now: the reported statistic '
+               'stays behind the accumulator' if not published['seen'] else
+               'the published average is not the integral (after this update) divided by now')
     if why:
         r.fail('C18.R3', k3, why, src(fi.module), fi.node.lineno)
     else:
-        r.ok('C18.R3', k3, "W' = W + previous level × (now − last change); stamp' = now", src(fi.module), fi.node.lineno)
+        r.ok('C18.R3', k3, "W' = W + previous level × (now − last change); stamp' = now; average' = W' / now", src(fi.module), fi.node.lineno)
+
+
+def check_edge_publication(p, r):
+    """R7: an edge reports its store's time-averaged occupancy in its own stats; after every put / get that it forwards to the store it copies the
+    store's current average (its stats collector) - otherwise the reported number lags one operation behind until the final update."""
+    r.rule('C18.R7', 'every Edge.put / Edge.get republishes the store average into the edge statistics after the store operation', 6)
+    for ci in tables.edge_classes(p):
+        attr, skeys = tables.edge_store_attr(p, ci)
+        has_stat = any('time_averaged' in ast.unparse(n) for n in ast.walk(ci.node) if isinstance(n, ast.Constant) and isinstance(n.value, str))
+        if not has_stat:
+            continue
+        for op in ('put', 'get'):
+            fi = ci.methods.get(op)
+            if fi is None:
+                continue
+            r.analysed_functions.add(fi.key)
+            key = f'{fi.key}::republishes-average'
+            ex = paths.Explorer(p, ci.key, tracked=set(), proto={'put', 'get'}, unroll=1, interrupt_edges=False)
+            bad = None
+            n = 0
+            for pa in ex.paths(fi):
+                if pa.raises:
+                    continue
+                evs = pa.events
+                ops = [i for i, e in enumerate(evs) if e.kind == 'pcall' and e.name == op and e.recv == f'self.{attr}']
+                if not ops:
+                    continue
+                n += 1
+                after = evs[ops[-1] + 1:]
+                pub = any((e.kind == 'setitem' and 'time_averaged' in e.target and e.base == 'self.stats') or
+                          (e.kind == 'call' and e.name.endswith('stats_collector')) for e in after)
+                if not pub:
+                    bad = pa
+            if n == 0:
+                continue
+            if bad is not None:
+                r.fail('C18.R7', key, f'{op}() forwards to the store but does not copy the store\'s time-averaged occupancy into the edge statistics afterwards: the reported '
+                                      f'average lags behind', src(fi.module), fi.node.lineno, bad.describe())
+            else:
+                r.ok('C18.R7', key, 'average republished after the store operation on every path', src(fi.module), fi.node.lineno)
 
 
 def check_cycle_time(p, nws, r):
